@@ -80,6 +80,21 @@ pub fn errors(args: &Value) -> Outcome {
     let mut paths: Vec<Value> = resp.errors.iter().map(|e| serde_json::to_value(&e.path).unwrap()).collect();
     let mut exp_paths: Vec<Value> = args["errors"].as_array().unwrap().clone();
     paths.sort_by_key(|p| p.to_string()); exp_paths.sort_by_key(|p| p.to_string());
+    // every field error carries exactly one source location, and it points at the field the path ends in (its alias or name in the query text)
+    let mut loc_bad = Vec::new();
+    if args["schema"] != "dynamic" || !resp.errors.iter().any(|e| e.path.is_empty()) {
+        for e in &resp.errors {
+            let key = e.path.iter().rev().find_map(|seg| match seg { PathSegment::Field(f) => Some(f.clone()), _ => None });
+            if let Some(key) = key {
+                if e.locations.len() != 1 { loc_bad.push(format!("error at {:?} has {} locations", e.path, e.locations.len())); continue; }
+                let (l, c) = (e.locations[0].line, e.locations[0].column);
+                let line = q.lines().nth(l.saturating_sub(1)).unwrap_or("");
+                let at: String = line.chars().skip(c.saturating_sub(1)).take(key.chars().count()).collect();
+                if at != key { loc_bad.push(format!("error at {:?} is located at {}:{} (`{}`), not at the field `{}`", e.path, l, c, at, key)); }
+            }
+        }
+    }
+    if !loc_bad.is_empty() { return Outcome { holds: false, observed: loc_bad.join("; "), expected: "each error located at its field".into() }; }
     Outcome { holds: data == args["data"] && paths == exp_paths, observed: format!("data {} error paths {}", data, Value::Array(paths)), expected: format!("data {} error paths {}", args["data"], Value::Array(exp_paths)) }
 }
 
